@@ -28,6 +28,10 @@ MANIFEST = dict(
     technique="Lean 4 proof (induction over field lists, padding-vector invariant for update_paddings) + "
               "model/impl correspondence + spec oracle",
     design="DESIGN.md §6 C11")
+MANIFEST["note"] += (" Constants and limits of the C++ source that the model restates (translator/gen_limits.py -> Gen/Limits.lean: "
+                     "compiled probe + preprocessed function bodies at named anchors) are tied to the model's numerals by the "
+                     "theorems of lean/TinsModel/Props/Limits/C11.lean (audit: Audit/LimitsC11.lean); tools/LIMITS-INVENTORY.md lists "
+                     "what is tied and what is not.")
 
 META = [(8, 8), (1, 1), (1, 1), (4, 2), (2, 2), (1, 1), (1, 1), (2, 2), (2, 2), (2, 2), (1, 1), (1, 1), (1, 1), (1, 1),
         (2, 2), (2, 2), (1, 1), (1, 1), (8, 4), (3, 1), (8, 4), (12, 2)]        # the radiotap standard (generator only)
